@@ -135,6 +135,21 @@ class MetricsSym:
             return ("OBJ", "ColumnMetrics", conv.conv(s))
         if fn == "median_absolute_deviation" and len(c.args) == 2:
             return fun("MAD")(conv.conv(c.args[0]), conv.conv(c.args[1]))
+        if fn.startswith("self.") and fn.count(".") == 1 and not c.args and not c.keywords:
+            # a private helper method of the same class (no arguments): its body is read like a property's
+            m = self.chk.res.find_method(self.cls, fn[5:])
+            if m is not None and not self.is_property(fn[5:]):
+                if fn in self.stack:
+                    raise Unsupported(f"cyclic helper {fn}")
+                self.stack.append(fn)
+                try:
+                    return self._axioms(Converter(self._attr_hook, dict(self.bind), self._call_hook).run_body(m.node.body))
+                finally:
+                    self.stack.pop()
+        if fn == "list" and len(c.args) == 1 and not c.keywords:
+            v = conv.conv(c.args[0])
+            if isinstance(v, list):
+                return v
         if fn == "t_stat":
             tail = kwarg(c, "tail") or (c.args[2] if len(c.args) > 2 else None)   # by name or by position
             return fun("TStat")(conv.conv(c.args[0]), conv.conv(c.args[1]), conv.conv(tail) if tail is not None else sp.Integer(2))
@@ -170,7 +185,7 @@ def run(chk):
             want = parse_ref(ref)
             r1.require(equal(got, want), key, m.where(), f"ColumnMetrics.{name} = {got}, textbook definition is {want}", sample={"statistic": f"ColumnMetrics.{name}", "term": str(got)})
         except Unsupported as e:
-            r1.require(False, key, m.where(), f"cannot establish ColumnMetrics.{name}: {e}")
+            raise AnalysisError(f"{key}: cannot establish ColumnMetrics.{name}: {e}")
     base = chk.repo.cls(MET, "BaselineMetrics")
     bm = MetricsSym(chk, base)
     for name, ref in spec["BASELINE"].items():
@@ -184,7 +199,7 @@ def run(chk):
             want = parse_ref(_expand(ref, spec["BASELINE_LET"]))
             r1.require(equal(got, want), key, m.where(), f"BaselineMetrics.{name} = {got}, textbook definition is {want}", sample={"statistic": f"BaselineMetrics.{name}", "term": str(got)[:200]})
         except Unsupported as e:
-            r1.require(False, key, m.where(), f"cannot establish BaselineMetrics.{name}: {e}")
+            raise AnalysisError(f"{key}: cannot establish BaselineMetrics.{name}: {e}")
     rep = chk.repo.cls(MET, "ReportingMetrics")
     for name, (bind, ref) in spec["REPORTING"].items():
         pname = name.split("|")[0]
@@ -199,7 +214,7 @@ def run(chk):
             want = parse_ref(_expand(ref, spec["REPORTING_LET"]))
             r1.require(equal(got, want), key, m.where(), f"ReportingMetrics.{name} = {got}, reference is {want}", sample={"statistic": f"ReportingMetrics.{name}", "term": str(got)[:200]})
         except Unsupported as e:
-            r1.require(False, key, m.where(), f"cannot establish ReportingMetrics.{name}: {e}")
+            raise AnalysisError(f"{key}: cannot establish ReportingMetrics.{name}: {e}")
     # unknown data frequency must raise
     tsu = rep.methods.get("total_savings_uncertainty")
     if tsu is not None:
@@ -208,20 +223,48 @@ def run(chk):
             r1.require(False, f"{rep.key}.total_savings_uncertainty|unknown-frequency-raises", tsu.where(), "an unknown data_frequency must raise, not produce a number")
         except Unsupported as e:
             r1.require("raise" in str(e), f"{rep.key}.total_savings_uncertainty|unknown-frequency-raises", tsu.where(), f"unknown data_frequency: {e}")
-    # the frames: finite pairs, residual = observed - predicted
-    for cls_, resid in ((base, True), (rep, False)):
+    # the frames: finite pairs, residual = observed - predicted.  `_df` is interpreted on recording values (engine.absint.Sym): the frame
+    # handed back must be a *copy of the two columns* of the source frame, validated, restricted by exactly
+    # isfinite(observed) & isfinite(predicted); the baseline frame carries residuals = observed - predicted of those rows.
+    from engine.absint import AbsObj as _AO, ModuleEnv as _ME, Oracle as _Or, SymWorld as _SW, canon as _canon, explore as _explore, sym_root as _root
+    from engine.pyinterp import Function as _Fn, Interp as _In, InterpRaised as _IR, Unsupported as _Un
+    for cls_, resid, src in ((base, True, "self.df"), (rep, False, "self.reporting_df")):
         f = cls_.methods.get("_df")
         if f is None:
             raise AnalysisError(f"{cls_.name}._df vanished")
-        txt = unparse(f.node)
-        fin = any(isinstance(n, ast.Subscript) and isinstance(n.slice, ast.BinOp) and isinstance(n.slice.op, ast.BitAnd) and
-                  {unparse(n.slice.left), unparse(n.slice.right)} == {"np.isfinite(_df['observed'])", "np.isfinite(_df['predicted'])"} for n in ast.walk(f.node))
-        r1.require(fin, f"{f.key}|finite-pairs", f.where(), f"{cls_.name}._df must keep exactly the rows where observed and predicted are both finite")
-        r1.require("[['observed', 'predicted']].copy()" in txt, f"{f.key}|copy-of-two-columns", f.where(), f"{cls_.name}._df must work on a copy of the observed/predicted columns")
+        orc = _Or()
+
+        def _run(f=f):
+            w = _SW(orc)
+            me = _AO({cls_.name}, df=_root(w, "self.df"), reporting_df=_root(w, "self.reporting_df"))
+            it = _In(step_limit=20_000)
+            env = _ME(chk.repo, f.module, it, {"np": _root(w, "np"), "numpy": _root(w, "np"), "pd": _root(w, "pd"), "PydanticDf": _root(w, "PydanticDf")})
+            try:
+                r_ = _Fn(f.node, env, it)(me)
+            except _IR as e:
+                return {"raises": e.exc_name}
+            return {"frame": _canon(r_), "cols": {k_: _canon(v_) for k_, v_ in getattr(r_, "_cols", {}).items()}, "effects": list(w.effects)}
+        try:
+            outs_df = list(_explore(_run, orc))
+        except _Un as e:
+            raise AnalysisError(f"{f.key}: uses an operation outside the modelled subset: {e}")
+        two = f"{src}[['observed', 'predicted']].copy()"
+        P = f"PydanticDf(column_types={{'observed': 'float', 'predicted': 'float'}}, df={two}).df"
+        want = {f"{P}[(np.isfinite({P}['observed']) & np.isfinite({P}['predicted']))]", f"{P}[(np.isfinite({P}['predicted']) & np.isfinite({P}['observed']))]",
+                f"{P}.loc[(np.isfinite({P}['observed']) & np.isfinite({P}['predicted']))]", f"{P}.loc[(np.isfinite({P}['predicted']) & np.isfinite({P}['observed']))]"}
+        normal = [o for _tr, o in outs_df if "frame" in o]
+        empties = [(_tr, o) for _tr, o in outs_df if "raises" in o]
+        fin = bool(normal) and all(o["frame"] in want for o in normal)
+        r1.require(fin, f"{f.key}|finite-pairs", f.where(), f"{cls_.name}._df must keep exactly the rows where observed and predicted are both finite (of a validated frame); interpreted: {[o['frame'][:200] for o in normal][:1]}")
+        r1.require(bool(normal) and all(two in o["frame"] and not o["effects"] for o in normal), f"{f.key}|copy-of-two-columns", f.where(),
+                   f"{cls_.name}._df must work on a copy of the observed/predicted columns of {src} and leave the source alone")
+        r1.require(all(o.get("raises") == "ValueError" and any("len(" in t_ and v_ for t_, v_ in _tr) for _tr, o in empties), f"{f.key}|empty-raises", f.where(),
+                   f"{cls_.name}._df may raise only the ValueError for an empty frame; interpreted: {[o for _t, o in empties][:1]}")
         if resid:
-            ok = any(isinstance(n, ast.Assign) and unparse(n.targets[0]) == "_df['residuals']" and unparse(n.value) == "_df['observed'] - _df['predicted']" for n in ast.walk(f.node))
-            r1.require(ok, f"{f.key}|residuals", f.where(), "residuals must be observed - predicted")
-            # ordering: the filter precedes the residual column and the return
+            ok = bool(normal) and all(o["cols"].get("residuals") == f"({o['frame']}['observed'] - {o['frame']}['predicted'])" for o in normal)
+            r1.require(ok, f"{f.key}|residuals", f.where(), f"residuals must be observed - predicted of the kept rows; interpreted: {[o['cols'].get('residuals', '<none>')[-120:] for o in normal][:1]}")
+        else:
+            r1.require(all(set(o["cols"]) <= {"residuals"} for o in normal), f"{f.key}|no-extra-columns", f.where(), "the reporting frame holds observed and predicted only")
     # daily error metrics: _get_error_metrics and the bookkeeping in _fit interpreted on sympy-valued stand-ins (rules/daily_errors.py)
     from rules.daily_errors import ORDER, error_metric_outcomes, judge_error_metrics, stored_errors
     dm = chk.repo.cls(*DAILY_MODEL)
